@@ -4,6 +4,7 @@ from __future__ import annotations
 import csv
 import io
 import json
+import math
 import os
 import re
 import shutil
@@ -55,12 +56,16 @@ def case_strategy(draw):
     nbad = draw(st.one_of(st.integers(0, 4), st.integers(0, 4), st.integers(0, 4), st.integers(33, 70)))    # also more than any small report queue holds
     bad = [[draw(st.sampled_from(['few', 'many', 'empty', 'single', 'openquote'])),
             draw(st.sampled_from(['first', 'last', 'rand'])), draw(st.integers(0, 10**6))] for _ in range(nbad)]
+    heuristic = draw(st.sampled_from(['MI-numba-randomized', 'MI-numba-randomized', 'max-value-coverage', 'Constant', 'correlation-Pearson']))
+    if heuristic == 'correlation-Pearson' and m < 2:
+        m = 2          # scipy's pearsonr is defined for at least two rows
+        t = min(t, m - 1)
     return {'ncols': ncols, 'm': m, 's': s, 'k': k, 't': t, 'bad': bad, 'seed': draw(st.integers(0, 2**32 - 1)),
             # one feature column is exploded into per-token indicator columns; a token that first occurs late in the file makes the
             # set of scored pairs differ between mini-batches
             'explode': draw(st.integers(0, 3)) == 0 and ncols >= 2,
             'trail': draw(st.integers(0, 3)), 'offgrid_bad': draw(st.booleans()), 'final_newline': draw(st.sampled_from([True, True, False])),
-            'heuristic': draw(st.sampled_from(['MI-numba-randomized', 'MI-numba-randomized', 'max-value-coverage', 'Constant'])),
+            'heuristic': heuristic,
             'header_rows': draw(st.lists(st.integers(0, 10**6), max_size=2)) if draw(st.integers(0, 3)) == 0 else [],
             'pairwise': draw(st.booleans()), 'annot': draw(st.booleans()), 'label_pos': draw(st.integers(0, ncols - 1)),
             'order': draw(st.sampled_from([1, 1, 2])) if regime == 'small' else 1}
@@ -70,10 +75,17 @@ def case_strategy(draw):
 def long_case_strategy(draw):
     """Files of 66 000 - 140 000 lines (more than any 2^16-line read block) with subsampling factors that do not divide a power of two."""
     ncols = draw(st.integers(2, 3))
-    s = draw(st.sampled_from([3, 5, 6, 7, 10]))
-    total = draw(st.integers(66000, 140000))
-    V = total // s
-    m = draw(st.integers(3000, 12000))
+    if draw(st.integers(0, 3)) == 0:
+        # one huge mini-batch setting: every row is consumed, the tail (more than 100 000 rows) is the only batch
+        s = 1
+        total = draw(st.integers(100_100, 125_000))
+        V = total
+        m = draw(st.sampled_from([150_000, 200_000, 2**17]))
+    else:
+        s = draw(st.sampled_from([3, 5, 6, 7, 10]))
+        total = draw(st.integers(66000, 140000))
+        V = total // s
+        m = draw(st.integers(3000, 12000))
     nbad = draw(st.integers(0, 3))
     bad = [[draw(st.sampled_from(['few', 'many', 'empty', 'single', 'openquote'])),
             draw(st.sampled_from(['first', 'last', 'rand'])), draw(st.integers(0, 10**6))] for _ in range(nbad)]
@@ -170,7 +182,12 @@ def median_table(triplet_lists):
     for tl in triplet_lists:
         for a, b, sc in tl:
             acc.setdefault((a, b), []).append(float(sc))
-    return {k: statistics.median(v) for k, v in acc.items()}
+    # an undefined per-batch score (NaN: e.g. Pearson on a column that is constant inside that batch) does not take part in the median
+    out = {}
+    for k, v in acc.items():
+        d = [x for x in v if x == x]
+        out[k] = statistics.median(d) if d else math.nan
+    return out
 
 
 class CapLog:
@@ -199,7 +216,7 @@ def read_checkpoint():
     if not os.path.exists('ranking_checkpoint_tmp.tsv'):
         return None
     df = pd.read_csv('ranking_checkpoint_tmp.tsv', sep='\t', keep_default_na=False, na_values=[])
-    return {(str(r.FeatureA), str(r.FeatureB)): float(r.Score) for r in df.itertuples()}
+    return {(str(r.FeatureA), str(r.FeatureB)): (float(r.Score) if str(r.Score) != '' else math.nan) for r in df.itertuples()}    # NaN is written as an empty cell
 
 
 def same_table(a, b, tol=1e-9):
@@ -207,7 +224,7 @@ def same_table(a, b, tol=1e-9):
         return a is None and (b is None or len(b) == 0) or (b is None and len(a) == 0)
     if set(a) != set(b):
         return False
-    return all(abs(a[k] - b[k]) <= tol for k in a)
+    return all((a[k] != a[k] and b[k] != b[k]) or abs(a[k] - b[k]) <= tol for k in a)
 
 
 def strip_annot(name, cols):
@@ -368,7 +385,7 @@ def _first_diff(got, exp):
     if set(got) != set(exp):
         return f'pairs only in output {sorted(set(got) - set(exp))[:3]}, only in reference {sorted(set(exp) - set(got))[:3]}'
     for k in sorted(got):
-        if abs(got[k] - exp[k]) > 1e-9:
+        if not ((got[k] != got[k] and exp[k] != exp[k]) or abs(got[k] - exp[k]) <= 1e-9):
             return f'{k}: got {got[k]!r}, reference {exp[k]!r}'
     return 'no difference'
 
